@@ -107,7 +107,7 @@ Step(e) ==
       closeIssued1 == IF e.op = "Close" /\ e.note = "" THEN closeIssued \cup {e.a2} ELSE closeIssued
       closeRet1 == closeRet \cup AsSet(e.closeret)
       idleAny1 == [i \in MIds |-> IF i \in newIds \/ i \in postOk \/ i \in getOk THEN t ELSE idleAny[i]]
-      live == {x \in AsSet(e.sess) : x > 0}
+      live == {x \in AsSet(e.sess) : x \in MIds}   \* (ids beyond the tracked range are ignored)
       \* POSTs that were in progress on i at some moment of this step (refused ones do not count)
       During(i) == {k \in DOMAIN all : all[k].m = "POST" /\ all[k].tgt = i
                                          /\ ~\E d \in dn : d.k = k /\ d.status >= 400}
@@ -115,7 +115,7 @@ Step(e) ==
       TimeoutLegit(i) == T > 0 /\ t >= Deadline(i) /\ \A k \in During(i) : all[k].t >= Deadline(i)
       died == {i \in prev : i \notin live}
       Unexplained(i) == ~(i \in delIssued1 \/ i \in closeIssued1 \/ TimeoutLegit(i))
-      ForeignNow(i) == \E k \in DOMAIN iss : iss[k].tgt = i /\ iss[k].foreign
+      ForeignNow(i) == \E k \in DOMAIN all : all[k].tgt = i /\ all[k].foreign   \* issued now or still open
   IN
   /\ \A d \in dn : Check(l, "Harness", d.k \in DOMAIN all)
   /\ \A d \in dn : d.k \in DOMAIN all => DoneChecks(all[d.k], d)
